@@ -133,8 +133,10 @@ def handle (j : Json) : IO Unit := do
     let decoyOk := hits == 0
     match seen with
     | [] =>
-      -- rejected / redirected before the proxy (400, 301, 404): nothing was sent upstream
-      emit case true decoyOk "stack.not-forwarded" (if decoyOk then "" else "decoy-contacted") (if decoyOk then "" else s!"{jstr (jget j "target")} made olla open {hits} connection(s) to the decoy")
+      -- rejected / redirected before the proxy (301, 400, 404, 405): nothing was sent upstream. A 5xx without any
+      -- upstream request means olla tried to reach something other than the endpoint's listener.
+      let st := (jstr (jget impl "status")).take 3
+      emit case (st == "301" || st == "400" || st == "404" || st == "405" || st == "308" || st == "307") decoyOk "stack.not-forwarded" (if decoyOk then "" else "decoy-contacted") (if decoyOk then "" else s!"{jstr (jget j "target")} made olla open {hits} connection(s) to the decoy")
     | [one] =>
       let req := bytesOf (jget parsed "path_hex")
       let q := (jstr (jget parsed "rawquery")).toList
